@@ -1,7 +1,9 @@
 #!/bin/bash
 # seed sweep of the quick tier on the unchanged tree: every line must be OK (false-alarm hunt)
 cd "$(dirname "$0")/.."
-PYTHONPATH=/repo/src /venv/bin/python -m harness.setup > /dev/null 2>&1
+# in a `vp run --with-repo` snapshot, use the snapshot of /repo so that edits to /repo meanwhile do not disturb the sweep
+if [ -n "$VP_RUN_REPO" ]; then export VERIF_REPO="$VP_RUN_REPO"; fi
+PYTHONPATH=${VERIF_REPO:-/repo}/src UBERJOB_SRC=${VERIF_REPO:-/repo}/src /venv/bin/python -m harness.setup > /dev/null 2>&1
 for s in ${SEEDS:-1 2 3 4 5 6 7 8}; do
   for p in $(python3 -c "import json; print(' '.join(c['property_id'] for c in json.load(open('MANIFEST.json'))['checks']))"); do
     out=$(VERIF_SEED=$s timeout 1200 ./check $p --tier ${TIER:-quick} 2>&1 | grep -v KNOWN-FINDING | tail -2)
